@@ -36,6 +36,8 @@ import (
 	proxyv1alpha1 "github.com/kubewharf/kubegateway/pkg/apis/proxy/v1alpha1"
 	"github.com/kubewharf/kubegateway/pkg/clusters"
 	proxyoptions "github.com/kubewharf/kubegateway/pkg/gateway/proxy/options"
+
+	"verifharness/rig"
 )
 
 const (
@@ -213,12 +215,13 @@ type gateway struct {
 	conn     net.Conn
 	br       *bufio.Reader
 	caseSeq  int
+	spec     *proxyv1alpha1.UpstreamCluster
 }
 
 func newGateway() (*gateway, error) {
 	g := &gateway{up: &upstream{}, sc: &script{}}
 	g.upSrv = httptest.NewServer(g.up)
-	cluster, err := clusters.CreateClusterInfo(&proxyv1alpha1.UpstreamCluster{
+	g.spec = &proxyv1alpha1.UpstreamCluster{
 		ObjectMeta: metav1.ObjectMeta{Name: clusterName},
 		Spec: proxyv1alpha1.UpstreamClusterSpec{
 			Servers:      []proxyv1alpha1.UpstreamClusterServer{{Endpoint: g.upSrv.URL}},
@@ -229,7 +232,8 @@ func newGateway() (*gateway, error) {
 				}},
 			}},
 		},
-	}, func(e *clusters.EndpointInfo) bool {
+	}
+	cluster, err := clusters.CreateClusterInfo(g.spec, func(e *clusters.EndpointInfo) bool {
 		if !e.IsReady() {
 			e.UpdateStatus(true, "", "")
 		}
@@ -239,7 +243,7 @@ func newGateway() (*gateway, error) {
 		return nil, fmt.Errorf("CreateClusterInfo: %v", err)
 	}
 	g.cluster = cluster
-	deadline := time.Now().Add(10 * time.Second)
+	deadline := time.Now().Add(90 * time.Second)
 	for {
 		if ep, ok := cluster.Endpoints.Load(g.upSrv.URL); ok && ep.IsReady() {
 			break
@@ -290,6 +294,47 @@ func newGateway() (*gateway, error) {
 	handler := buildChain(manager, notFound, cfg)
 	g.gwSrv = httptest.NewServer(handler)
 	return g, nil
+}
+
+// lifecycle plays one event of an endpoint's life between two requests (exported entry points of pkg/clusters only) and waits,
+// one-sidedly, until the endpoint is ready again. It returns false when the wait timed out: the case is then inconclusive.
+func (g *gateway) lifecycle(op string) (bool, string) {
+	ep, ok := g.cluster.Endpoints.Load(g.upSrv.URL)
+	if !ok {
+		return false, "endpoint not found"
+	}
+	var err error
+	msg, panicked := rig.Recover(func() {
+		switch op {
+		case "reset-transport": // what the gateway's health check does after repeated failures
+			err = ep.ResetTransport()
+		case "resync": // the UpstreamCluster object is applied again (informer resync)
+			err = g.cluster.Sync(g.spec)
+		case "flap": // the endpoint is reported unhealthy, then healthy again
+			ep.UpdateStatus(false, "Verif", "flap")
+			ep.UpdateStatus(true, "", "")
+		case "reset-twice":
+			if err = ep.ResetTransport(); err == nil {
+				err = ep.ResetTransport()
+			}
+		}
+	})
+	if panicked {
+		return true, "panic: " + msg
+	}
+	if err != nil {
+		return true, err.Error()
+	}
+	deadline := time.Now().Add(30 * time.Second)
+	for {
+		if e, ok := g.cluster.Endpoints.Load(g.upSrv.URL); ok && e.IsReady() {
+			return true, ""
+		}
+		if time.Now().After(deadline) {
+			return false, "endpoint not ready again"
+		}
+		time.Sleep(2 * time.Millisecond)
+	}
 }
 
 func (g *gateway) close() {
